@@ -244,6 +244,7 @@ def _step_reduced_task(sizes, comps, mode, nonuniform):
         wcs = _wcs(1, "frequency", inp)
         det = PhasorDetector(name="ph", wave_characters=wcs, components=comps, scaling_mode=mode, reduce_volume=True, switch=L.on_switch()).place_on_grid(sl, cfg, L.key())
         det, T, win, wsum, stride = _generalise(det)
+        (det,), V = L.cut_volume_weights([det], V, sizes)
         t = sym_int("t", lo=0)
         c.assume((t + 1 <= T).z)
         t_arr = A.SymArray((), lambda idx: t, "int", memo=False)
